@@ -188,6 +188,20 @@ func LoadKnown(root string) ([]KnownFinding, error) {
 	return k, nil
 }
 
+// loadKFCounts reads kf_counts.json: property -> tier -> finding id -> number of failing cases on the
+// unchanged tree (written by an authoring aid from committed evidence, never by a registered command).
+func loadKFCounts(root string) map[string]map[string]map[string]int {
+	b, err := os.ReadFile(filepath.Join(root, "kf_counts.json"))
+	if err != nil {
+		return nil
+	}
+	var m map[string]map[string]map[string]int
+	if json.Unmarshal(b, &m) != nil {
+		return nil
+	}
+	return m
+}
+
 func globMatch(pat, s string) bool {
 	if !strings.Contains(pat, "*") {
 		return pat == s
@@ -264,6 +278,42 @@ func (r *Run) Finish(rule string, assumptions []string) int {
 	for _, kf := range known {
 		if n, ok := matchedKF[kf.ID]; ok {
 			fmt.Printf("KNOWN-FINDING: property=%s %s: %s (%d failing cases this run)\n", r.Property, kf.ID, kf.What, n)
+		}
+	}
+	// Population bound: a known finding covers the failing cases recorded when it was triaged, not
+	// whatever else later falls into the same class. Enumeration is deterministic, so the number of
+	// failing cases per finding and tier is a constant of the unchanged tree; more than that means
+	// new failures hide behind the finding, and they are reported (fewer is never an alarm).
+	if bounds := loadKFCounts(r.Root)[r.Property][r.Tier]; bounds != nil {
+		ids := make([]string, 0, len(matchedKF))
+		for id := range matchedKF {
+			ids = append(ids, id)
+		}
+		sort.Strings(ids)
+		for _, id := range ids {
+			max, ok := bounds[id]
+			if !ok || matchedKF[id] <= max {
+				continue
+			}
+			key := r.Property + "|known-finding-population|" + id
+			var first *Violation
+			for _, k := range keys {
+				for _, kf := range known {
+					if kf.ID != id {
+						continue
+					}
+					for _, p := range kf.Keys {
+						if first == nil && globMatch(p, k) {
+							first = r.viol[k]
+						}
+					}
+				}
+			}
+			v := &Violation{Key: key, Detail: fmt.Sprintf("%d cases now fail in the way recorded as known finding %s, which covers %d on the unchanged tree: %d additional failures (first key of the class: %s)", matchedKF[id], id, max, matchedKF[id]-max, first.Key)}
+			v.Replay = map[string]any{"known_finding": id, "recorded_cases": max, "observed_cases": matchedKF[id], "first_case_of_class": first.Replay, "first_detail": first.Detail}
+			r.viol[key] = v
+			r.violCount[key] = matchedKF[id] - max
+			unlisted = append(unlisted, key)
 		}
 	}
 	rdir := filepath.Join(r.Root, "replays", r.Property)
